@@ -14,6 +14,8 @@ From Coq Require Import Init.Byte.
 From FFS Require Import Base.Res Base.Bytes Abi.Spec.
 From FFS Require Import Eip712.Util Eip712.Input Eip712.Numeric Eip712.Coerce Eip712.Model Eip712.Spec Eip712.Repr.
 From FFS Require Import Eip712.Parse Eip712.ProofsSign Eip712.ProofsMain Eip712.ProofsInvariance Eip712.ProofsParse Eip712.ProofsAbi.
+From FFS Require Import Crypto.Ecdsa Eip712.ProofsSignVerify.
+From FFS Require Secp.Model Secp.Proofs.
 Import ListNotations.
 
 (* 1. The digest is the EIP-712 digest: keccak256(0x19 0x01 || domainSeparator || hashStruct(message)),
@@ -104,8 +106,29 @@ Theorem C04_signature :
         length (r_signatureRSV res) = 65%nat) /\
     ((forall m R S V, sign_direct m = Some (R, S, V) -> V = 27%Z \/ V = 28%Z) ->
      nth 64 (r_signatureRSV res) x00 = n2b (Z.to_N (r_V res)) /\ (r_V res = 27%Z \/ r_V res = 28%Z)).
-Proof. intros. split; [eapply sign_shape; eassumption | intros; eapply sign_v; eassumption]. Qed.
+Proof. intros. split; [eapply ProofsSign.sign_shape; eassumption | intros; eapply ProofsSign.sign_v; eassumption]. Qed.
 Print Assumptions C04_signature.
+
+(* 5'. Signature clause, "verifies for that digest against the signer's address": when the signer is
+       pkg/secp256k1's KeyPair.SignDirect for key d (Secp/Model.v, C05's model) over any group satisfying
+       the ECDSA laws of Crypto/Ecdsa.v, the 65 bytes decode to a signature from which RecoverDirect, for
+       the reported hash (= the document's digest), returns the address of d's public key.  The V in
+       {27,28} hypothesis excludes btcec's 2^-128 overflow recovery codes (see C05). *)
+Theorem C04_signature_verifies :
+  forall (o : group_ops), laws o -> (n o < Secp.Model.two256)%Z ->
+  forall (Hk : bytes -> bytes), (forall x, length (Hk x) = 32%nat) ->
+  forall (nonce : Z -> bytes -> nat -> Z) (fuel : nat) (d : Z), (1 <= d < n o)%Z ->
+  forall (H : bytes -> bytes) (big_other : bytes -> option Z) (payload : option typed_data) (res : EIP712Result) (c : Z),
+    (0 <= c <= 2 ^ 53)%Z ->
+    SignTypedDataV4 H big_other (key_signer o nonce fuel d) payload = Ok res ->
+    (r_V res = 27 \/ r_V res = 28)%Z ->
+    exists sg,
+      EncodeTypedDataV4 H big_other payload = Ok (r_hash res) /\
+      Secp.Model.DecodeCompactRSV (r_signatureRSV res) = Ok sg /\
+      Secp.Model.sV sg = r_V res /\
+      Secp.Model.RecoverDirect o Hk sg (r_hash res) c = Ok (Secp.Proofs.addr_of o Hk (pub o d)).
+Proof. intros. eapply sign_verifies; eassumption. Qed.
+Print Assumptions C04_signature_verifies.
 
 (* 6. ABI-derived type set.  [describes re sts tc (Struct primary)] (Eip712/ProofsAbi.v): the component
       tree tc is the Solidity ABI form of the struct — every tuple carries an internalType from which
@@ -259,3 +282,12 @@ Proof.
               (parse_types_repr _ _ Es Hwf) (parse_val_ok _ _ _ _ _ _ Ev) Ht) as (ts & E1 & E2 & E3).
   exists v, ts. auto.
 Qed.
+
+(* the signature clause: its hypotheses are met by the toy group of Crypto/Ecdsa.v (which satisfies
+   the laws) signing the example document under a constant "hash" *)
+Example C04_nonvacuous_signature :
+  let H0 := fun _ : bytes => repeat x07 32 in
+  exists res,
+    SignTypedDataV4 H0 (fun _ => None) (key_signer Toy.ops (fun _ _ _ => 3%Z) 4 2%Z) (Some ex_td) = Ok res /\
+    (r_V res = 27 \/ r_V res = 28)%Z /\ length (r_signatureRSV res) = 65%nat.
+Proof. cbv zeta. eexists. split; [vm_compute; reflexivity|]. split; [vm_compute; auto | vm_compute; reflexivity]. Qed.
